@@ -13,7 +13,7 @@ RULE = ("N-[E:]V-R.A strings assembled from generated parts (name = 1-4 dash-sep
         "over [A-Za-z0-9._+~^], every arch of the architecture table, optional directory prefix, optional '.rpm'); "
         "oracle = the parts the string was built from, canonical re-format/parse fixed point, and the key Rpms.add files "
         "the package under; plus a bounded-exhaustive sweep over a small alphabet. Non-trivial = name has >=2 segments or "
-        "a digit-only segment, or an epoch or a directory prefix is present; distinct = SHA-1 of the parts.")
+        "a digit-only segment, or an epoch or a directory prefix is present; distinct = SHA-1 of the parts. Related spellings of the same build (other / no epoch, other prefix, other suffix) are parsed back to back: each answer depends on its own string only.")
 ASSUMPTIONS = ["the architecture table copied into pbt/gen.py equals the documented RPM_ARCHES (checked at start of run)"]
 FLOORS = {"distinct_nontrivial": 500}
 
